@@ -1012,6 +1012,8 @@ class _Abs(ast.NodeTransformer):
         return ast.copy_location(ast.Name(id="_", ctx=node.ctx), node) if node.id not in ("op", "dis", "bytes", "len") else node
 
     def visit_Attribute(self, node: ast.Attribute) -> ast.AST:
+        if node.attr == "opmap" and isinstance(node.value, ast.Name) and node.value.id == "dis":
+            return ast.copy_location(ast.Name(id="op", ctx=ast.Load()), node)  # `op` is the conventional alias of dis.opmap
         if node.attr in ("opname", "opmap", "hasjabs", "hasjrel"):
             return ast.copy_location(ast.Attribute(value=self.visit(node.value) if not isinstance(node.value, ast.Name) or node.value.id != "dis" else node.value, attr=node.attr, ctx=node.ctx), node)
         return ast.copy_location(ast.Name(id="_", ctx=ast.Load()), node)
@@ -1433,11 +1435,12 @@ def opc8_jump_arithmetic(ctx: Ctx) -> None:
         return
     P = norm(adv[0].target)
     # arg accumulates (arg << 8) | code[P + 1]
-    acc = [s for s in ext[0].body if isinstance(s, ast.Assign) and norm(s.targets[0]) == "arg"]
-    if len(acc) == 1 and norm(acc[0].value) in (f"arg << 8 | code[{P} + 1]", f"(arg << 8) | code[{P} + 1]"):
-        ctx.R.ok("OPC-8", f"EXTENDED_ARG prefixes accumulate arg = (arg << 8) | code[{P} + 1]")
+    acc = [s for s in ext[0].body if isinstance(s, ast.Assign) and isinstance(s.targets[0], ast.Name) and norm(s.targets[0]) != P]
+    A = norm(acc[0].targets[0]) if len(acc) == 1 else "arg"
+    if len(acc) == 1 and norm(acc[0].value) in (f"{A} << 8 | code[{P} + 1]", f"({A} << 8) | code[{P} + 1]"):
+        ctx.R.ok("OPC-8", f"EXTENDED_ARG prefixes accumulate {A} = ({A} << 8) | code[{P} + 1]")
     else:
-        ctx.R.fail("OPC-8", mod, ext[0], f"each EXTENDED_ARG prefix must extend the argument as (arg << 8) | code[{P} + 1]", construct="EXTENDED_ARG accumulation")
+        ctx.R.fail("OPC-8", mod, ext[0], f"each EXTENDED_ARG prefix must extend the argument as ({A} << 8) | code[{P} + 1]", construct="EXTENDED_ARG accumulation")
     jm = [s for s in ast.walk(fn) if isinstance(s, ast.Assign) and norm(s.targets[0]) == "jmul"]
     if len(jm) == 1 and isinstance(jm[0].value, ast.IfExp):
         for v in ("3.9", "3.10"):
@@ -1455,26 +1458,26 @@ def opc8_jump_arithmetic(ctx: Ctx) -> None:
     for e in ast.walk(loop):
         if isinstance(e, ast.BinOp) and isinstance(e.op, ast.Add):
             t = norm(e)
-            if t.endswith("+ arg * jmul") and "+ 2" in t:
+            if t.endswith(f"+ {A} * jmul") and "+ 2" in t:
                 n += 1
                 base = norm(e.left.left) if isinstance(e.left, ast.BinOp) else None
-                if t == f"{P} + 2 + arg * jmul":
+                if t == f"{P} + 2 + {A} * jmul":
                     ctx.R.ok("OPC-8", f"relative target {t}")
                 else:
                     ctx.R.fail("OPC-8", mod, e, f"a relative jump / SETUP_* target is relative to the instruction after the decoded opcode at `{P}`; the walk computes `{t}` "
                                f"(when the jump carries an EXTENDED_ARG prefix the two differ by the prefix length: the handler offset and the successor are wrong)", construct=f"relative target {t}")
     falls = [c for c in ast.walk(loop) if isinstance(c, ast.Call) and norm(c.func) == "todo.append" and isinstance(c.args[0], ast.Tuple)
              and isinstance(c.args[0].elts[0], ast.BinOp) and isinstance(c.args[0].elts[0].op, ast.Add) and isinstance(c.args[0].elts[0].right, ast.Constant)
-             and "arg" not in norm(c.args[0].elts[0])]
+             and A not in norm(c.args[0].elts[0])]
     for c in falls:
         n += 1
         if norm(c.args[0].elts[0]) == f"{P} + 2":
             ctx.R.ok("OPC-8", f"fall-through successor {P} + 2")
         else:
             ctx.R.fail("OPC-8", mod, c, f"the fall-through successor is the instruction after the decoded opcode at `{P}`, the walk queues `{norm(c.args[0].elts[0])}`", construct=f"fall-through {norm(c.args[0].elts[0])}")
-    absj = [c for c in ast.walk(loop) if isinstance(c, ast.Call) and norm(c.func) == "todo.append" and isinstance(c.args[0], ast.Tuple) and norm(c.args[0].elts[0]) in ("arg * jmul", "jmul * arg")]
+    absj = [c for c in ast.walk(loop) if isinstance(c, ast.Call) and norm(c.func) == "todo.append" and isinstance(c.args[0], ast.Tuple) and norm(c.args[0].elts[0]) in (f"{A} * jmul", f"jmul * {A}")]
     if absj:
         n += 1
-        ctx.R.ok("OPC-8", "absolute target arg * jmul")
+        ctx.R.ok("OPC-8", f"absolute target {A} * jmul")
     if n < 3:
         ctx.R.undecided("OPC-8", f"only {n} jump-target expressions recognised in the walk")
